@@ -5,6 +5,10 @@ TECH = "contract-based deductive verification: pyvc VC generation from the real 
 TRUST = ("home-made VC generator (Python subset semantics of DESIGN section 2), assumed external contracts listed in the evidence "
          "file's trusted_base, solver soundness; see evidence.assumptions")
 CLAIMED = {
+    "C19": ("proof", "Pin-cited reference citations: loop invariant of extract_pincited_reference_citations (every reference starts at or after the end of the full citation's "
+            "span; its span/full-span/token offsets are equal and valid in the plain text), discharged for all texts; non-interference as a frame argument: syntactic read-set "
+            "obligations on the real AST (markup flows only into Document and the reference extractors, which construct only references) plus filter_citations' "
+            "keeps-non-references / nothing-invented postconditions; markup offsets by SpanUpdater's in-range contract. Name containment and markup placement are bounded (stand-in) only.", "6/C19"),
     "C17": ("proof", "Ghost-provenance clauses at every store site of textual metadata (pin cite, extra, year, parenthetical, plaintiff, defendant, antecedent, "
             "publisher, month, day): the stored value is a substring of the window text[a:b] it was matched in and a, b lie inside the citation's full span; the "
             "extracted plaintiff sits exactly at the full-span start; parties/year are copied from a preceding citation only when both full spans start at the same "
